@@ -64,7 +64,7 @@ package snapshot
 // verification precedes every use of snapshot files.)
 //@ func (*Store) Open
 //@   requires [recv] s != nil && s.mrsw != nil
-//@   assigns *, abVal, timerRunning, timerDur, timerFn, released, chanClosed, condBcast
+//@   assigns *, abVal, timerRunning, timerDur, timerFn, released, chanClosed, condBcast, onceDone
 //@   ghost var held bool = false
 //@   ghost var nEnd int = 0
 //@   ghost var verified bool = false
@@ -90,3 +90,51 @@ package snapshot
 //@   assert @s.reap: [writer-held] w
 //@   ghost update @s.mrsw.EndWrite: w = false
 //@   ensures [released] !w
+//
+// ---- C12: corrupt snapshot data is detected before it is used ------------------------------------
+//@ spec import lib/sync
+//
+// A file's check passes iff its sidecar disables checking or the CRC32 of the file equals the
+// recorded one.
+//@ func (*ChecksummedFile) Check
+//@   requires [recv] hf != nil
+//@   ghost var actualV int = 0
+//@   ghost var crcErr error = nil
+//@   ghost var dis0 bool = (hf.sidecar != nil && hf.sidecar.Disabled)
+//@   ghost var crc0 int = hf.CRC32
+//@   ghost update @rsum.CRC32: actualV = result0
+//@   ghost update @rsum.CRC32: crcErr = result1
+//@   assert @rsum.CRC32: [own-path] arg0 == hf.Path
+//@   ensures [disabled] dis0 ==> (result0 && result1 == nil)
+//@   ensures [error] (!dis0 && crcErr != nil) ==> (!result0 && result1 == crcErr)
+//@   ensures [equal] (!dis0 && crcErr == nil) ==> (result1 == nil && result0 == (actualV == crc0))
+//
+// The store's verification runs at most once and its verdict is returned to every later caller.
+//@ func (*Store) ensureVerified
+//@   requires [recv] s != nil
+//@   assigns *, onceDone, chanClosed
+//@   ghost var nCheck int = 0
+//@   ghost var checkErr error = nil
+//@   ghost var err0 error = s.verifyErr
+//@   ghost var once0 int = s.verifyOnce
+//@   ghost update @s.checkCRCs: nCheck = nCheck + 1
+//@   ghost update @s.checkCRCs: checkErr = result
+//@   ensures [at-most-once] nCheck <= 1 && (old(onceDone)[once0] ==> nCheck == 0)
+//@   ensures [sticky] old(onceDone)[once0] ==> result == err0
+//@   ensures [first-verdict] (!old(onceDone)[once0] && s.fatalFn == nil) ==> (nCheck == 1 && result == checkErr)
+//@   ensures [done] onceDone[once0]
+//
+// checkCRCs: every database file and every WAL file of every scanned snapshot is handed to the
+// checker before the verdict is taken.
+//@ func (*CRCChecker) Add
+//@   inline
+//
+//@ func (*Store) checkCRCs
+//@   requires [recv] s != nil
+//@   assigns *, chanClosed
+//@   ghost var added map[int]bool = empty("map[int]bool")
+//@   ghost update @checker.Add: added = update(added, arg0, true)
+//@   loop 1 invariant [db-files] forall k int :: (0 <= k && k < _i && snapshots.items[k].dbFile != nil) ==> added[snapshots.items[k].dbFile]
+//@   loop 2 invariant [wal-prefix] forall m int :: (0 <= m && m < _i) ==> added[snap.walFiles[m]]
+//@   loop 2 invariant [db-file] snap.dbFile != nil ==> added[snap.dbFile]
+//@   assert @checker.Check: [db-files-added] forall k int :: (0 <= k && k < len(snapshots.items) && snapshots.items[k].dbFile != nil) ==> added[snapshots.items[k].dbFile]
